@@ -84,6 +84,7 @@ var gTypes = []gType{
 	{Name: "c18/component-noconf", Kind: "component"},
 	{Name: "c18/factory-ptr-default-err", Kind: "factory", HasConf: true, HasDefault: true, CtorErr: true, FacErr: true},
 	{Name: "c18/factory-struct-nodefault", Kind: "factory", HasConf: true},
+	{Name: "c18/component-ptr-nodefault", Kind: "component", HasConf: true},
 }
 
 var gOnce sync.Once
@@ -139,6 +140,13 @@ func gRegister() {
 				return gImpl(gTypes[5].Name, &own)
 			}
 		})
+		register.RegisterPtr(ptr, gTypes[6].Name, func(c *Conf) Comp {
+			gCtor(gTypes[6].Name, c)
+			if c == nil {
+				return gImpl(gTypes[6].Name, nil)
+			}
+			return gImpl(gTypes[6].Name, c)
+		})
 	})
 }
 
@@ -166,17 +174,17 @@ func genConfigCase(t *rapid.T) ConfigCase {
 		bads = append(bads, "wrong_type", "validation")
 	}
 	if ty.CtorErr {
-		bads = append(bads, "ctor_fail")
+		bads = append(bads, "ctor_fail", "ctor_fail")
 	}
 	if ty.FacErr {
-		bads = append(bads, "fac_fail")
+		bads = append(bads, "fac_fail", "fac_fail", "fac_fail")
 	}
 	c.Bad = rapid.SampledFrom(bads).Draw(t, "bad")
 	c.TypeKey = rapid.SampledFrom([]string{"type", "type", "type", "Type", "TYPE"}).Draw(t, "typeKey")
 	c.YAMLKeys = rapid.Bool().Draw(t, "yamlKeys")
 	c.Products = rapid.IntRange(1, 5).Draw(t, "products")
 	for i := 0; i < c.Products; i++ {
-		c.Mutate = append(c.Mutate, rapid.IntRange(0, 2).Draw(t, fmt.Sprintf("mutate%d", i)) == 0)
+		c.Mutate = append(c.Mutate, rapid.IntRange(0, 2).Draw(t, fmt.Sprintf("mutate%d", i)) == 2)
 	}
 	return c
 }
